@@ -375,6 +375,8 @@ def check_c19(prop, tier, replay=None):
                         wkind, _ = classify(sit, dict(obs, stdout=obs["written"]))
                 left_tmp = listing(tmpd)
                 new_cwd = [x for x in listing(cwd) if x not in before]
+                # ... and where the --output target lies nothing but the target itself appears
+                new_cwd += ["(next to the --output target) " + x for x in listing(outd) if x != os.path.basename(sit["outfile"])]
             finally:
                 shutil.rmtree(wd, ignore_errors=True)
             return hs, t, sit, text, obs, kind, detail, wkind, left_tmp, new_cwd
@@ -402,7 +404,7 @@ def check_c19(prop, tier, replay=None):
                 if left_tmp:
                     problems.append("left in TMPDIR: %s" % left_tmp[:4])
                 if new_cwd:
-                    problems.append("created in cwd: %s" % new_cwd[:4])
+                    problems.append("created outside TMPDIR: %s" % new_cwd[:4])
                 if kind == "auto":
                     # same text <=> same input class (ok / crlf): rows must agree within a format, bytes within (format, text)
                     auto_rows.setdefault((sit["format"], "ok" if sit["input"] in ("badfname", "nlfname") else sit["input"]), []).append((key, detail["rows"], obs["stdout"] if sit["own"] == "none" else None, sit))
@@ -616,6 +618,7 @@ def concurrent_round(scr, sits, same_text=True, with_strace=False):
             if of is not None and res[i] is not None:
                 res[i]["outfile"] = open(of, "rb").read() if os.path.exists(of) else None
                 res[i]["outdir_listing"] = listing(os.path.dirname(of)) if os.path.isdir(os.path.dirname(of)) else []
+                res[i]["outs_listing"] = listing(outs)        # everything below the directory the --output targets of this round lie in
         fs = None
         if with_strace:
             names = {}
@@ -696,6 +699,33 @@ def check_c20(prop, tier, replay=None):
                     run.violation("fault-%s-%s-%s" % (s["fault"], s["input"], s["channel"]), {"situation": s},
                                   {"why": "an outside fault (interrupt / temporary copy cannot be written) is not survived cleanly", "problems": probs,
                                    "stderr": r[0]["stderr"][-300:].decode(errors="replace")})
+        # --output: whatever the outcome, nothing but the target itself may appear where the target lies (no directories made
+        # ahead of a run that then fails, no temporary sibling); the spec's `cwd` is everything created outside TMPDIR
+        oterms, _ = enumerate_situations()
+        osits = {}
+        for t in oterms:
+            if t["sit"].get("out") in ("newfile", "exists", "force", "baddir") and t["sit"]["own"] == "none":
+                osits[json.dumps(t["sit"], sort_keys=True)] = t
+        for k in sorted(osits):
+            t = osits[k]
+            s = dict(t["sit"])
+            r, c, tm, _ = concurrent_round(scr, [dict(s)])
+            run.evaluated()
+            run.nontrivial(phash(["out", k]))
+            run.cov["traces_validated_against_impl"] += 1
+            allowed = set() if s["out"] == "baddir" else {"result0.%s" % s["format"]}
+            extra = [x for x in r[0].get("outs_listing", []) if x not in allowed]
+            probs = []
+            if c or tm:
+                probs.append("files left behind: cwd %s tmp %s" % (c[:4], tm[:4]))
+            if extra:
+                probs.append("created next to the --output target: %s" % extra[:4])
+            if s["out"] == "newfile" and (r[0]["exit"] != 0) != (r[0].get("outfile") is None):
+                probs.append("exit status %d but the --output file %s" % (r[0]["exit"], "exists" if r[0].get("outfile") is not None else "is missing"))
+            if probs:
+                run.violation("output-%s-%s-%s-%s" % (s["out"], s["input"], s["channel"], s["format"]), {"situation": s},
+                              {"why": "a run with --output leaves something behind besides the target itself", "problems": probs,
+                               "stderr": r[0]["stderr"][-300:].decode(errors="replace")})
         sizes = [8, 16] if tier == "quick" else [8, 16, 32, 64, 128, 128]
         rounds = []
         for n in sizes:
